@@ -1,4 +1,4 @@
-import GIV.Lemmas.CachePutSeq
+import GIV.Lemmas.CachePutFrame
 /-!
 # C12 — an interrupted or failing Put leaves the cache consistent
 
@@ -8,6 +8,10 @@ operation against the file system under a fault (`none`, `fail`, `short k`); a p
 before or after any step.  `FSInv` is the invariant of the directory:
 (D) a data file `h-d`, `h` the hash of an offered content `c`, is shorter than `c` or equal to `c`;
 (I) an index file is empty or a whole entry `(H c, |c|)` of an offered content.
+
+`torn_then_crash_witness` (a short index write FOLLOWED BY death before the code's `Remove`: two faults in
+one operation, outside the property's fault model) is a proved NEGATIVE result: `FaultStep` admits one
+fault per Put, and with two the invariant is lost.  The harness never injects that combination.
 
 Hypotheses (`Hyps`): no other byte string has the hash of an offered content; the index entry of an
 offered content has the fixed length and parses back (C05's codec theorems).
@@ -164,5 +168,85 @@ theorem getBytes_gate_any_world {now : Int} {proc : Nat} {op : Op Id} {fs fs' : 
     | getFile id => cases hr
     | getBytes id => cases hr
   · exact run_bytes_gate hex rfl
+
+/-- **A failed Put never makes unrelated entries unreadable**: whatever fault hits `Put(id, s)` and
+wherever it stops, every file other than the data file of its own output and the index file of its own
+id keeps its content — in particular, for every other id' whose entry names another output, the index
+file of id' and its data file (the only files the lookups of id' read: `sysOf`) are untouched, so those
+lookups agree before and after. -/
+theorem failed_put_unrelated (hy : Hyps P offered) {now : Int} {proc : Nat} {id : Id} {s : Src} (hoff : offered s.data1)
+    {fs fs' : FS Id Hsh} {o : Outcome Hsh} (hinv : FSInv P offered fs)
+    (hex : OpExec P now proc (.put id s) fs fs' o) :
+    (∀ id', id' ≠ id → fs'.content (.index id') = fs.content (.index id')) ∧
+    (∀ out', out' ≠ P.H s.data1 → fs'.content (.data out') = fs.content (.data out')) := by
+  have hst := put_start (P := P) (offered := offered) (now := now) (id := id) (s := s) hinv
+  unfold OpExec at hex
+  split at hex
+  · obtain ⟨rfl, _⟩ := hex
+    exact ⟨fun _ _ => rfl, fun _ _ => rfl⟩
+  · next pc hpc =>
+    rw [hpc] at hst
+    refine ⟨fun id' h => ?_, fun out' h => ?_⟩
+    · exact put_run_frame hy hoff hex hst (by simp) (by simpa using h)
+    · exact put_run_frame hy hoff hex hst (by simpa [putOut] using h) (by simp)
+
+example : OpExec toyP 5 0 (.put 1 ⟨false, [7], true, [7]⟩) emptyFS emptyFS (.ret .err) := ⟨rfl, rfl⟩
+
+/-- id 1 is stored with content `[8, 9, 10]` (index entry present), a Put(1, [7]) has its index file open. -/
+def tornFS : FS Nat Bytes :=
+  { names := fun p => if p = .index 1 then some 0 else none,
+    inodes := fun i => if i = 0 then some ⟨.index 1, toyEnc 1 [8, 9, 10] 3 0⟩ else none,
+    nextIno := 1, fds := fun fd => if fd = 0 then some ⟨0, 0, 0⟩ else none, nextFd := 1 }
+
+def tornSrc : Src := ⟨true, [7], true, [7]⟩
+
+theorem tornFS_inv : FSInv toyP toyOffered tornFS := by
+  refine ⟨⟨?_, ?_⟩, ?_⟩
+  · intro p i h
+    simp only [tornFS] at h ⊢
+    split at h
+    · next hp => cases h; exact ⟨⟨.index 1, toyEnc 1 [8, 9, 10] 3 0⟩, by simp, hp.symm⟩
+    · cases h
+  · intro i nd h
+    simp only [tornFS] at h ⊢
+    split at h
+    · next hi => omega
+    · cases h
+  · intro p i nd _ hp hi
+    simp only [tornFS] at hp hi
+    split at hp
+    · next hpe =>
+      cases hp
+      simp at hi
+      subst hi; subst hpe
+      exact Or.inr ⟨[8, 9, 10], 0, Or.inr rfl, rfl⟩
+    · cases hp
+
+set_option maxRecDepth 8000 in
+/-- **Negative result, outside the property's fault model**: if the single write of the index entry is
+SHORT and the process then dies before the code's own `Remove` (two faults in one operation), the index
+file is a byte-wise mixture of the old and the new entry that parses as an entry nobody stored — clause
+(I) of the invariant is lost.  (Here: id 1 was stored with a 3-byte content, a Put of the 1-byte content
+`[7]` writes 1 byte of its entry and dies; the file now reads "output of [7], size 3".)  From there a
+Trim of that output and a further interrupted Put can produce a file of the reported size with wrong bytes. -/
+theorem torn_then_crash_witness :
+    ∃ fs1 r nx, FSInv toyP toyOffered tornFS ∧ LocalPut toyP toyOffered 5 1 tornSrc false tornFS (.iWrite 0) ∧
+      tstep toyP 5 tornFS 0 (.put 1 tornSrc) (.iWrite 0) (.short 1) 0 = some (fs1, r, nx) ∧
+      (fs1.closeProc 0).content (.index 1) = some ([7, 3] ++ List.replicate 173 0) ∧
+      toyP.parse 1 ([7, 3] ++ List.replicate 173 0) = some ⟨[7], 3⟩ ∧
+      ¬ FSInv toyP toyOffered (fs1.closeProc 0) := by
+  refine ⟨_, _, _, tornFS_inv, ⟨tornFS_inv, ⟨0, 0, 0⟩, rfl, rfl, rfl⟩, rfl, ?_, rfl, ?_⟩
+  · rfl
+  · intro h
+    have := h.2 (.index 1) 0 _ (by simp) rfl rfl
+    rcases this with h0 | ⟨c, t, hc, hd⟩
+    · exact absurd h0 (by decide)
+    · rcases hc with rfl | rfl
+      · have h1 := congrArg (fun l => List.getD l 1 0) hd
+        simp [toyP, toyEnc, putOut, Src.size, tornSrc, writeAt] at h1
+      · have h1 := congrArg (fun l => List.getD l 0 0) hd
+        simp [toyP, toyEnc, putOut, Src.size, tornSrc, writeAt] at h1
+
+example : ∃ fs1 r nx, tstep toyP 5 tornFS 0 (.put 1 tornSrc) (.iWrite 0) (.short 1) 0 = some (fs1, r, nx) := ⟨_, _, _, rfl⟩
 
 end GIV.C12
